@@ -141,10 +141,21 @@ def run(res, tier):
     res.rule("C09.1 type level: source tree has 0 result values / void locals, target tree void multipoles; P2PTsm has no source-result slot; source header/data const at the kernel")
     res.rule("C09.2 who may call: only the one-sided near-field wrapper; unfiltered neighbour list + in-group part + self list mapped on SOURCE groups with the TARGET working group; M2L likewise; P2M/M2M source-only, L2L/L2P target-only")
     res.rule("C09.3 OpenMP target/source executor: capture lifetime and dependencies (C03.b/c/d/e rules)")
+    res.rule("C09.4 each execution depends on the two trees and the kernels only: stage functions keep nothing about the trees in the executor (interaction lists remembered across execute() calls cannot be invalidated when a tree is rebuilt)")
+    import c12
+    before = len(res.violations)
+    for cls in TSM:
+        c12.no_tree_derived_state(facts, cls, res, R="C09.4.stateless-executor")
+    stateful = len(res.violations) > before
     n = 0
     classes = list(TSM)
     for cls in classes:
-        ex = who_may_call(facts, cls, res)
+        try:
+            ex = who_may_call(facts, cls, res)
+        except AnalysisBroken:
+            if not stateful:
+                raise
+            # the lists are routed through the remembered state reported by C09.4: the who-may-call rule cannot follow them
         n += 1
     # 3
     cmap = effects.container_map(facts)
